@@ -48,6 +48,38 @@ Theorem C05_model_passes_on_the_wire : forall c,
 Proof. exact c05_model_passes_on_the_wire. Qed.
 Print Assumptions C05_model_passes_on_the_wire.
 
+(* Spellings.  The registry depends on a path only through CanonicalPath (Base/StrGo.v
+   [canonical_path]; idempotent: Proofs/CanonProofs.v).  [respelled o o']: the same operation with its
+   path — GNew, GGet — spelled differently but with the same canonical path.  Re-spelling every path
+   of a history changes no answer, no state and not its well-formedness, for the specification and
+   for the implementation model in every variant *)
+Theorem C05_spelling_independent : forall ops ops',
+  Forall2 respelled ops ops' ->
+  (forall sp, srun sp ops = srun sp ops' /\ sexec sp ops = sexec sp ops' /\ hist_wf sp ops = hist_wf sp ops') /\
+  (forall V g, grun V g ops = grun V g ops').
+Proof. exact spelling_independent. Qed.
+Print Assumptions C05_spelling_independent.
+
+(* two spellings with the same canonical path are the same key: the stream created under p and
+   registered is found under every spelling p' of it, the canonical form itself included *)
+Theorem C05_spelling_same_key : forall sp p p' hls,
+  canonical_path p = canonical_path p' ->
+  let i := length (sp_streams sp) in
+  let sp1 := fst (sstep sp (GNew p hls)) in
+  let sp2 := fst (sstep sp1 (GRegist i)) in
+  snd (sstep sp2 (GGet p')) = RGet (Some i) /\ snd (sstep sp2 (GGet (canonical_path p))) = RGet (Some i).
+Proof. exact spelling_same_key. Qed.
+Print Assumptions C05_spelling_same_key.
+
+(* every stream's path is in canonical form, so a lookup under a stream's own Path() is a lookup of its key *)
+Theorem C05_paths_are_canonical : forall ops i,
+  let sp := sexec sinit ops in
+  (i < length (sp_streams sp))%nat ->
+  canonical_path (st_path (sp_get sp i)) = st_path (sp_get sp i) /\
+  snd (sstep sp (GGet (st_path (sp_get sp i)))) = RGet (sp_resolve sp (st_path (sp_get sp i))).
+Proof. exact paths_are_canonical. Qed.
+Print Assumptions C05_paths_are_canonical.
+
 (* 3a. whatever a lookup returns is an existing live stream whose path is the key … *)
 Theorem C05_lookup_only_live : forall ops k i,
   let sp := sexec sinit ops in
@@ -260,6 +292,13 @@ Example C05_nonvacuous :
       RCount 1 0; RList [[47;97]]; RUnit; RGet (Some 1%nat); RCount 1 0;
       RIdle true; RGet None; RCount 0 0; RList [] ].
 Proof. exact example_hist_ok. Qed.
+
+Example C05_spelling_nonvacuous :
+  Forall2 respelled example_spelled_1 example_spelled_2 /\
+  hist_wf sinit example_spelled_1 = true /\
+  srun sinit example_spelled_1 = [RUnit; RUnit; RUnit; RUnit; RGet (Some 1%nat); RCount 1 0] /\
+  srun sinit example_spelled_2 = [RUnit; RUnit; RUnit; RUnit; RGet (Some 1%nat); RCount 1 0].
+Proof. exact example_spelled_ok. Qed.
 
 Example C05_hls_nonvacuous :
   hist_wf sinit example_hls = true /\
